@@ -33,6 +33,15 @@ Definition piece_of (a:aenv) (valid_instances:list string) (e:expr) : piece :=
   | EConst (PInt z) => PcLit (str_of_Z z)
   | EVar x => match slookup x a with Some l => PcAlt l | None => PcAny end
   | EInstance => match valid_instances with [] => PcAny | l => PcAlt l end
+  | EIndexE (EDict items) EInstance =>
+      (* a constant that depends on the instance of the form (a closure variable computed in __init__): any of its values *)
+      match fold_right (fun kv acc => match acc, snd kv with
+                                      | Some a, EConst (PStr s) => Some (s :: a)
+                                      | Some a, EConst (PInt z) => Some (str_of_Z z :: a)
+                                      | _, _ => None end) (Some []) items with
+      | Some l => PcAlt l
+      | None => PcAny
+      end
   | _ => PcAny
   end.
 
